@@ -162,6 +162,16 @@ def ob_power(K, n):
             goals.append(Goal("user %d: ||block||_F^2 == iPu" % u, frac_eq(e_blk, iPu)))
             # direction preserved: block is a positive multiple of the unscaled block
             goals.append(Goal("user %d: block * ||raw|| == raw * sqrt(iPu)" % u, _meq(blk * lift(e_raw).to_real().sqrt(), raw * iPu.sqrt())))
+        # a solution handed out earlier belongs to the caller: a later call on the SAME object (another channel realisation of the same
+        # size, another unscaled precoder) must not change it
+        keepH, keepMs = np.array(newH, dtype=object, copy=True), np.array(Ms, dtype=object, copy=True)
+        H2, Msb2 = mk(c, "G", N, N), mk(c, "M2", N, N)
+        it.models["pyphysim.comm.blockdiagonalization:BlockDiagonalizer._calc_BD_matrix_no_power_scaling"] = \
+            lambda interp, self, ch: (Msb2, np.ones(N))
+        newH2, Ms2 = it.call(it.getattr(o, "block_diagonalize_no_waterfilling"), [H2])
+        goals.append(Goal("second call on the same object: newH2 == H2 Ms2", _meq(newH2, np.dot(H2, Ms2))))
+        goals.append(Goal("the first solution (Ms, newH) kept by the caller is unchanged by the second call",
+                          _meq(np.asarray(Ms, dtype=object), keepMs) & _meq(np.asarray(newH, dtype=object), keepH)))
         return goals
     return verify(body, check_side=False, timeout_ms=60000)
 
@@ -351,6 +361,40 @@ def ob_native_bd():
             if (not (np.abs((E - I)[np.ix_(live, live)]).max() <= 1e-6)):
                 return {"receive filter does not invert the effective channel": float(np.abs((E - I)[np.ix_(live, live)]).max()),
                         "scale": sc, "wf": wf}
+        # solutions handed out earlier belong to the caller: later calls on the same object (new realisations of the same size) leave them alone
+        o3 = bd.BlockDiagonalizer(K, iPu, float(10 ** rr.uniform(-3, 0)) * sc * sc)
+        kept = []
+        for t in range(3):
+            Ht = _cm(rr, N, N) * sc
+            for wf in (False, True):
+                nh, ms = o3.block_diagonalize(Ht) if wf else o3.block_diagonalize_no_waterfilling(Ht)
+                kept.append((Ht, nh, ms, nh.copy(), ms.copy(), wf, t))
+        for (Ht, nh, ms, nh0, ms0, wf, t) in kept:
+            if not (np.array_equal(nh, nh0) and np.array_equal(ms, ms0)):
+                return {"a solution returned earlier was changed by a later call on the same object": {"realisation": t, "wf": wf},
+                        "max change of Ms": float(np.abs(ms - ms0).max())}
+        # the channel's numbers matter, not how they are stored: an integer-typed channel (hand-written / quantised) gives the same solution
+        Hi = rr.randint(-4, 5, size=(N, N))
+        if np.linalg.matrix_rank(Hi) == N and np.linalg.cond(Hi.astype(float)) < 1e3:
+            for dt in (np.int64, np.int32, np.float32):
+                for wf in (False, True):
+                    with np.errstate(all="ignore"):
+                        a = (o.block_diagonalize(Hi.astype(dt)) if wf else o.block_diagonalize_no_waterfilling(Hi.astype(dt)))
+                        b = (o.block_diagonalize(Hi.astype(float)) if wf else o.block_diagonalize_no_waterfilling(Hi.astype(float)))
+                    tol = 1e-4 if dt is np.float32 else 1e-9
+                    # the SVD basis inside a user's subspace is unique up to sign/phase: compare what the property talks about
+                    na, nb = np.asarray(a[0], dtype=complex), np.asarray(b[0], dtype=complex)
+                    if (not np.all(np.isfinite(na))) or (not np.all(np.isfinite(np.asarray(a[1], dtype=complex)))):
+                        return {"non-finite solution for a channel stored as": np.dtype(dt).name, "wf": wf}
+                    ref = np.abs(nb).max()
+                    for k in range(K):
+                        for j in range(K):
+                            if j != k and (not (np.abs(na[j * n:(j + 1) * n, k * n:(k + 1) * n]).max() <= max(tol, 1e-9) * ref)):
+                                return {"not block diagonal for a channel stored as": np.dtype(dt).name, "wf": wf}
+                    pa = np.array([np.linalg.norm(np.asarray(a[1])[:, k * n:(k + 1) * n], 'fro') ** 2 for k in range(K)])
+                    pb = np.array([np.linalg.norm(np.asarray(b[1])[:, k * n:(k + 1) * n], 'fro') ** 2 for k in range(K)])
+                    if (not (np.abs(pa - pb).max() <= tol * iPu)):
+                        return {"per-user powers depend on the dtype of the channel array": [pa.tolist(), pb.tolist()], "dtype": np.dtype(dt).name, "wf": wf}
         # the module-level convenience functions are the same computation; the object can be re-used at another power
         nv = float(10 ** rr.uniform(-3, 0)) * sc * sc
         newH_f, Ms_f = bd.block_diagonalize(H, K, iPu, nv)
